@@ -145,8 +145,12 @@ Record case := mkFC {
   c_cmds : list cmd;
   c_obs : list (list N * payload);            (* per command: reply codes, payload *)
   c_final : hostfs;                           (* the window after the session *)
-  c_escape : bool                             (* something appeared at the host root or in
+  c_escape : bool;                            (* something appeared at the host root or in
                                                  the process's working directory *)
+  c_lists : list (list (bytes * bytes) * list (bytes * bytes))
+     (* per LIST/NLST command, in order: the entries received (name, "mode|size|mtime" as
+        printed; empty for NLST) and, taken from the host right before the command, every
+        entry of every directory inside the root in the same form *)
 }.
 
 Definition pay_eqb (model obs : payload) : bool :=
@@ -174,6 +178,12 @@ Definition SIG_OUTSIDE_CHANGED := 1.    (* something beside/above the root was c
 Definition SIG_OUTSIDE_DISCLOSED := 2.  (* content or names from outside the root were sent to the client *)
 Definition SIG_CWD_REPORTED := 3.       (* PWD text is not a clean rooted path *)
 Definition SIG_HOST_ESCAPE := 4.        (* effect at the host root / process working directory *)
+Definition SIG_LISTED_NOT_INSIDE := 5.  (* a listing line that is no entry of a directory inside the root
+                                           (name and metadata): ".", "..", or something from outside *)
+
+Definition lentry_eqb (a b : bytes * bytes) : bool := eqb_bytes (fst a) (fst b) && eqb_bytes (snd a) (snd b).
+Definition listing_ok (l : list (bytes * bytes) * list (bytes * bytes)) : bool :=
+  forallb (fun e => existsb (lentry_eqb e) (snd l)) (fst l).
 
 Definition outside (root : bytes) (fs : hostfs) : hostfs :=
   filter (fun e => negb (inside_b root (fst e))) fs.
@@ -218,6 +228,7 @@ Definition case_sig (c : case) : N :=
   else if existsb (discloses (outside_contents (c_root c) (c_fs c))) (c_obs c) then SIG_OUTSIDE_DISCLOSED
   else if pwd_bad (c_cmds c) (c_obs c) then SIG_CWD_REPORTED
   else if c_escape c then SIG_HOST_ESCAPE
+  else if negb (forallb listing_ok (c_lists c)) then SIG_LISTED_NOT_INSIDE
   else 0.
 
 Definition violations (cs : list case) : list (N * N) :=
